@@ -133,8 +133,18 @@ class Core:
             if r.random() < 0.3:
                 lines += ['else:'] + [ind + l for l in self.block(cp(env), genv, depth + 1, in_func, in_loop, 1)]
             return lines
-        if c < 0.74:
+        if c < 0.72:
             return [r.choice(['pass', '0', "'doc'", 'None', '1.5', 'True'])]
+        if c < 0.745 and depth < 2:
+            v = self.fresh('l' if in_func else 'g')
+            bound = r.choice(['0', '1', '2', '3', '(%s %% 4)' % self.int_expr(env, 2), '-1', 'True'])
+            env[v] = 'int'
+            body_env = cp(env)
+            body = self.block(body_env, genv, depth + 1, in_func, True)
+            lines = ['for %s in range(%s):' % (v, bound)] + [ind + l for l in body]
+            if r.random() < 0.3:
+                lines += ['else:'] + [ind + l for l in self.block(cp(env), genv, depth + 1, in_func, in_loop, 1)]
+            return lines
         if c < 0.79 and depth < 2:
             caught = ['ZeroDivisionError', 'ValueError', 'KeyError', 'AssertionError', 'RuntimeError', 'Exception', 'IndexError']
             body = self.block(cp(env), genv, depth + 1, in_func, in_loop, r.randint(1, 2))
